@@ -4,8 +4,11 @@ import HumphreyModel.Spec.WsApp
 
 /-!
 Replay for C12. A case is `app|real, scenario` and the implementation's output is
-`summary|h4log|execlog|frames|consumed|closed` (see `harness/src/c12.rs`; an output without the last field is
-accepted). The scenario names the handlers the app was built with (`hs=<subset of cmd>`, `-` for none; absent =
+`summary|h4log|execlog|frames|consumed|closed|heartbeat` (see `harness/src/c12.rs`; an output without the last
+field or the last two is accepted). The heartbeat field is the timeline of the run's clock readings as bounded by
+the harness (signs of life of every client, polls survived, timeouts, ping decisions); with the scenario's
+`h=<interval>.<timeout>` it is judged by `liveClientKept`, `silentClientTimedOut` and `pingCadenceOk` of
+`Spec/WsApp.lean` - the model cannot see these: it takes the clock readings as inputs. The scenario names the handlers the app was built with (`hs=<subset of cmd>`, `-` for none; absent =
 all three): that is the configuration `Handlers` of the model. The H4 log is cut into iterations; each
 iteration yields the `IterInput` the real loop observed and the effects it produced (dispatches, sends, pings
 and removals `x<a>` = `Effect.drop`). The inputs are replayed through `WsApp.stepLoop h`; an iteration whose
@@ -37,6 +40,8 @@ structure Iter where
   repeats : Nat := 0
   reuse : Bool := false
 
+/-- The iteration being collected. The lists grow at the head (logs of thousands of tokens per iteration): they
+are in REVERSE order until `Acc.toIter`. -/
 structure Acc where
   keys : List Addr := []
   willPing : Bool := false
@@ -49,12 +54,26 @@ structure Acc where
   repeats : Nat := 0
   reuse : Bool := false
 
+/-- The receive results per polled stream, in key order: one pass over the results when they come grouped by
+stream in key order (they do: the loop polls one stream after the other), a filter per key otherwise. -/
+def groupRecvs : List Addr → List (Addr × Recv) → Option (List (List Recv))
+  | [], [] => some []
+  | [], _ :: _ => none
+  | k :: ks, rs =>
+    let mine := rs.takeWhile (·.1 == k)
+    (groupRecvs ks (rs.drop mine.length)).map fun rest => mine.map (·.2) :: rest
+
 def Acc.toIter (a : Acc) : Iter :=
+  let recvs := a.recvs.reverse
+  let timedOut := a.timedOut
+  let results : List (List Recv) := match groupRecvs a.keys recvs with
+    | some g => g
+    | none => a.keys.map fun k => (recvs.filter (·.1 == k)).map (·.2)
   { input := { shutdown := false, willPing := a.willPing,
-               polls := a.keys.map fun k =>
-                 { addr := k, results := (a.recvs.filter (·.1 == k)).map (·.2), timedOut := a.timedOut.contains k },
-               incoming := a.incoming, outgoing := a.outgoing },
-    effects := a.effects, segs := a.segs, repeats := a.repeats, reuse := a.reuse }
+               polls := (a.keys.zip results).map fun (k, rs) =>
+                 { addr := k, results := rs, timedOut := timedOut.contains k },
+               incoming := a.incoming.reverse, outgoing := a.outgoing.reverse },
+    effects := a.effects.reverse, segs := a.segs.reverse, repeats := a.repeats, reuse := a.reuse }
 
 /-- One token inside an iteration. -/
 def token (a : Acc) (t : String) : Option Acc :=
@@ -70,30 +89,30 @@ def token (a : Acc) (t : String) : Option Acc :=
         let res : Option Recv :=
           if r == "N" then some .none else if r == "E0" || r == "E1" then some .err
           else (parseMsg r).map .msg
-        res.map fun res => { a with recvs := a.recvs ++ [(ad, res)] }
+        res.map fun res => { a with recvs := (ad, res) :: a.recvs }
     | 'm', [ad, m] =>
       match ad.toNat?, parseMsg m with
-      | some ad, some m => some { a with effects := a.effects ++ [.dispatchMessage ad m] }
+      | some ad, some m => some { a with effects := .dispatchMessage ad m :: a.effects }
       | _, _ => none
-    | 'd', [ad] => ad.toNat?.map fun ad => { a with effects := a.effects ++ [.dispatchDisconnect ad] }
-    | 'c', [ad] => ad.toNat?.map fun ad => { a with effects := a.effects ++ [.dispatchConnect ad] }
-    | 'p', [ad] => ad.toNat?.map fun ad => { a with effects := a.effects ++ [.ping ad] }
-    | 'x', [ad] => ad.toNat?.map fun ad => { a with effects := a.effects ++ [.drop ad] }
-    | 't', [ad] => ad.toNat?.map fun ad => { a with timedOut := a.timedOut ++ [ad] }
-    | 'a', [ad, f] => ad.toNat?.map fun ad => { a with incoming := a.incoming ++ [ad], reuse := a.reuse || f == "1" }
+    | 'd', [ad] => ad.toNat?.map fun ad => { a with effects := .dispatchDisconnect ad :: a.effects }
+    | 'c', [ad] => ad.toNat?.map fun ad => { a with effects := .dispatchConnect ad :: a.effects }
+    | 'p', [ad] => ad.toNat?.map fun ad => { a with effects := .ping ad :: a.effects }
+    | 'x', [ad] => ad.toNat?.map fun ad => { a with effects := .drop ad :: a.effects }
+    | 't', [ad] => ad.toNat?.map fun ad => { a with timedOut := ad :: a.timedOut }
+    | 'a', [ad, f] => ad.toNat?.map fun ad => { a with incoming := ad :: a.incoming, reuse := a.reuse || f == "1" }
     | 'u', [ad, f, m] =>
       match ad.toNat?, parseMsg m with
       | some ad, some m =>
         let eff : List Effect := if f == "1" then [.sendTo ad (frameOf m)] else []
-        some { a with outgoing := a.outgoing ++ [.unicast ad m], effects := a.effects ++ eff,
-                      segs := a.segs ++ [(.unicast ad m, eff)] }
+        some { a with outgoing := .unicast ad m :: a.outgoing, effects := eff.reverse ++ a.effects,
+                      segs := (.unicast ad m, eff) :: a.segs }
       | _, _ => none
     | 'b', [ads, m] =>
       match parseAddrs ads, parseMsg m with
       | some ads, some m =>
         let eff : List Effect := ads.map (.sendTo · (frameOf m))
-        some { a with outgoing := a.outgoing ++ [.broadcast m ads], effects := a.effects ++ eff,
-                      segs := a.segs ++ [(.broadcast m ads, eff)] }
+        some { a with outgoing := .broadcast m ads :: a.outgoing, effects := eff.reverse ++ a.effects,
+                      segs := (.broadcast m ads, eff) :: a.segs }
       | _, _ => none
     | '*', [n] => n.toNat?.map fun n => { a with repeats := n }
     | _, _ => none
@@ -104,20 +123,33 @@ structure Parsed where
   sawShutdown : Bool := false
   exited : Bool := false
 
-/-- Cut the log into iterations. `cur` = the iteration being collected. -/
-def parseLog : List String → Option Acc → Parsed → Option Parsed
-  | [], cur, p => some { p with iters := p.iters ++ (cur.map (·.toIter)).toList }
+/-- The iteration collected in `cur` is over (`iters` is in reverse order while the log is read). -/
+def closeIter (cur : Option Acc) (p : Parsed) : Parsed :=
+  match cur with
+  | some a => { p with iters := a.toIter :: p.iters }
+  | none => p
+
+/-- Cut the log into iterations. `cur` = the iteration being collected. A loop with an accumulator: logs have
+tens of thousands of tokens. -/
+def parseLogAux : List String → Option Acc → Parsed → Option Parsed
+  | [], cur, p => some (closeIter cur p)
   | t :: ts, cur, p =>
-    let closed : Parsed := { p with iters := p.iters ++ (cur.map (·.toIter)).toList }
     if p.sawShutdown then
-      if t == "X" && cur.isNone then parseLog ts none { p with exited := true } else none
+      if t == "X" && cur.isNone then parseLogAux ts none { p with exited := true } else none
     else match t.toList with
     | 'I' :: rest =>
-      (parseAddrs (String.ofList rest)).bind fun ks => parseLog ts (some { keys := ks }) closed
-    | ['S'] => parseLog ts none { closed with sawShutdown := true }
+      match parseAddrs (String.ofList rest) with
+      | some ks => parseLogAux ts (some { keys := ks }) (closeIter cur p)
+      | none => none
+    | ['S'] => parseLogAux ts none { closeIter cur p with sawShutdown := true }
     | _ => match cur with
       | none => none
-      | some a => (token a t).bind fun a' => parseLog ts (some a') p
+      | some a => match token a t with
+        | some a' => parseLogAux ts (some a') p
+        | none => none
+
+def parseLog (ts : List String) (cur : Option Acc) (p : Parsed) : Option Parsed :=
+  (parseLogAux ts cur p).map fun q => { q with iters := q.iters.reverse }
 
 def effTok (e : Effect) : String :=
   let m (x : Msg) := (if x.text then "T" else "B") ++ hex x.payload
@@ -173,18 +205,33 @@ structure Script where
   /-- the script ends with Close, a reserved opcode or a truncated frame -/
   ends : Bool
 
-def parseItem (acc : Script) (s : String) : Script :=
+def parseSimpleItem (acc : Script) (s : String) : Script :=
   if acc.ends then acc else
   match s.toList with
   | 'T' :: _ | 'B' :: _ => match parseMsg s with
     | some m => { acc with msgs := acc.msgs ++ [m] }
     | none => acc
-  | 'f' :: rest | 'g' :: rest =>
+  | 'f' :: rest | 'g' :: rest | 'o' :: rest =>
     match parseMsg (String.ofList (rest.dropWhile Char.isDigit)) with
     | some m => { acc with msgs := acc.msgs ++ [m] }
     | none => acc
   | 'C' :: _ | ['G'] | ['R'] => { acc with ends := true }
   | _ => acc
+
+/-- An item of a client's script; `<n>x<item>+<item>…` = those items n times over. -/
+def parseItem (acc : Script) (s : String) : Script :=
+  if acc.ends then acc else
+  match s.toList with
+  | c :: _ =>
+    if c.isDigit then
+      match s.splitOn "x" with
+      | [n, items] =>
+        let sub := (items.splitOn "+").foldl parseSimpleItem { msgs := [], ends := false }
+        let k := n.toNat?.getD 0
+        { msgs := acc.msgs ++ (List.replicate k sub.msgs).flatten, ends := sub.ends && k != 0 }
+      | _ => acc
+    else parseSimpleItem acc s
+  | [] => acc
 
 def scnFields (scn : String) : List (String × String) :=
   (scn.splitOn ";").map fun f => match f.splitOn "=" with
@@ -229,20 +276,80 @@ def parseExec (s : String) : Option (List Effect) :=
     | some a => a.effects.head?
     | none => none
 
+/-- Do the two lists hold the same effects the same number of times? (Each effect is named by its token; the
+sorted token lists are compared.) -/
+def sameMultiset (xs ys : List Effect) : Bool :=
+  let key (l : List Effect) := (l.map effTok).mergeSort (fun a b => decide (a ≤ b))
+  key xs == key ys
+
+/-- No address twice (`List.Nodup`, decided by sorting: runs have up to a thousand clients). -/
+@[noinline] def distinctAddrs (l : List Addr) : Bool :=
+  let s := l.mergeSort (fun a b => decide (a ≤ b))
+  (s.zip (s.drop 1)).all fun (a, b) => a != b
+
 def firstFail (checks : List (String × Bool)) : Option String :=
   (checks.find? (!·.2)).map (·.1)
 
 def parseIds (s : String) : List Nat :=
   if s.isEmpty then [] else (s.splitOn ",").filterMap String.toNat?
 
+/-! ### The heartbeat timeline (7th field of the output, see `harness/src/c12.rs`) -/
+
+def parseSpan (s : String) : Option (Nat × Nat) :=
+  match s.splitOn "-" with
+  | [a, b] => match a.toNat?, b.toNat? with
+    | some a, some b => some (a, b)
+    | _, _ => none
+  | _ => none
+
+def parseHbEv (s : String) : Option HbEv :=
+  match s.toList with
+  | 'L' :: r => (parseSpan (String.ofList r)).map fun (lo, hi) => .life lo hi
+  | 'A' :: r => (String.ofList r).toNat?.map .alive
+  | 'T' :: r => (String.ofList r).toNat?.map .timedOut
+  | _ => none
+
+def parsePingEv (s : String) : Option PingEv :=
+  match s.toList with
+  | 'P' :: r => (parseSpan (String.ofList r)).map fun (i, t) => .pinged i t
+  | 'Q' :: r => (String.ofList r).toNat?.map .notPinged
+  | _ => none
+
+def dotted {α} (f : String → Option α) (s : String) : Option (List α) :=
+  if s.isEmpty then some [] else (s.splitOn ".").mapM f
+
+structure HbLog where
+  pings : List PingEv := []
+  clients : List (Addr × List HbEv) := []
+
+def parseHb (s : String) : Option HbLog :=
+  if s.isEmpty then some {} else
+  (s.splitOn ";").foldlM (fun (acc : HbLog) part => match part.splitOn "=" with
+    | ["w", v] => (dotted parsePingEv v).map fun w => { acc with pings := w }
+    | [a, v] => match a.toNat?, dotted parseHbEv v with
+      | some a, some evs => some { acc with clients := acc.clients ++ [(a, evs)] }
+      | _, _ => none
+    | _ => none) {}
+
+/-- `h=<interval ms>.<timeout ms>` of the scenario, in ns (the unit of the timeline). -/
+def parseHeartbeat (scn : String) : Option (Nat × Nat) :=
+  match (scnFields scn).lookup "h" with
+  | some v => match v.splitOn "." with
+    | [i, t] => match i.toNat?, t.toNat? with
+      | some i, some t => some (i * 1000000, t * 1000000)
+      | _, _ => none
+    | _ => none
+  | none => none
+
 def judge (isReal : Bool) (scn : String) (p : Parsed) (summary exec frames consumed : String)
-    (closed : Option String) : Option Bool × String :=
+    (closed hb : Option String) : Option Bool × String :=
   let h := parseHandlers scn
   let its := p.iters
   let inputs : List IterInput := its.map (·.input) ++ (if p.sawShutdown then [{ shutdown := true }] else [])
   let T : List Effect := its.flatMap (·.effects) ++ (if p.exited then [.exit] else [])
   let adm := admitted inputs
-  if its.any (·.reuse) || !adm.Nodup then (none, "address-reuse") else
+  let reuse : Bool := its.any (·.reuse) || !distinctAddrs adm
+  if reuse then (none, "address-reuse") else
   let addrs := (adm ++ its.flatMap (fun it => it.input.polls.map (·.addr)) ++
                 its.flatMap (fun it => it.input.outgoing.filterMap fun o => match o with
                   | .unicast a _ => some a | _ => none)).eraseDups
@@ -301,11 +408,34 @@ def judge (isReal : Bool) (scn : String) (p : Parsed) (summary exec frames consu
         let cl := parseIds cl
         (addrs ++ cl).eraseDups.map fun a => (s!"socket_closed_iff_removed:{a}", cl.contains a == (T.count (.drop a) != 0))
       | _, _ => []
+    -- the heartbeat, from the clock bounds of the run: live clients are kept, silent ones are timed out, pings
+    -- are `interval` apart; a client that is timed out has a timeline
+    let heartbeatChecks : List (String × Bool) :=
+      match isReal, parseHeartbeat scn, hb with
+      | false, some (interval, timeout), some hb =>
+        match parseHb hb with
+        | none => [("bad-heartbeat-field", false)]
+        | some l =>
+          [ ("heartbeat_ping_cadence", pingCadenceOk interval none l.pings) ] ++
+          (l.clients.flatMap fun (a, evs) =>
+            [ (s!"heartbeat_live_client_kept:{a}", liveClientKept timeout none evs),
+              (s!"heartbeat_silent_client_timed_out:{a}", silentClientTimedOut timeout none evs),
+              (s!"heartbeat_timeouts_observed:{a}",
+                (evs.filter fun e => match e with | .timedOut _ => true | _ => false).length ==
+                  (its.map fun it => (it.input.polls.filter fun q => q.addr == a && q.timedOut).length).sum) ]) ++
+          (addrs.filter fun a => !(l.clients.any (·.1 == a))).map fun a =>
+            (s!"heartbeat_timeline_missing:{a}",
+              (its.all fun it => it.input.polls.all fun q => q.addr != a || !q.timedOut))
+      | false, none, _ =>
+        -- without a heartbeat nobody is pinged or timed out
+        [ ("no_heartbeat_no_ping", T.all (!isPing ·)),
+          ("no_heartbeat_no_timeout", its.all fun it => !it.input.willPing && it.input.polls.all (!·.timedOut)) ]
+      | _, _, _ => []
     let checks : List (String × Bool) :=
       [ ("wedged", !summary.startsWith "WEDGED" && summary.startsWith "returned"),
         ("shutdown_returns", !p.sawShutdown || (p.exited && decide (ExitsLast T))) ] ++
-      perClient ++ flushes ++ socketChecks ++
-      [ ("executed_eq_dispatched", (D ++ ex).all fun e => D.count e == ex.count e),
+      perClient ++ heartbeatChecks ++ flushes ++ socketChecks ++
+      [ ("executed_eq_dispatched", sameMultiset D ex),
         ("one_thread_execution_order", threads != 1 || ex == D) ] ++ scriptChecks
     match firstFail checks with
     | some r => (some false, r)
@@ -314,21 +444,24 @@ def judge (isReal : Bool) (scn : String) (p : Parsed) (summary exec frames consu
 def dispatch (fn : String) (args : List String) (impl : String) : Option Verdict :=
   match fn, args with
   | "app", [scn] | "real", [scn] =>
-    let fields : Option (String × String × String × String × String × Option String) :=
+    let fields : Option (String × String × String × String × String × Option String × Option String) :=
       match impl.splitOn "|" with
-      | [summary, log, exec, frames, consumed] => some (summary, log, exec, frames, consumed, none)
-      | [summary, log, exec, frames, consumed, closed] => some (summary, log, exec, frames, consumed, some closed)
+      | [summary, log, exec, frames, consumed] => some (summary, log, exec, frames, consumed, none, none)
+      | [summary, log, exec, frames, consumed, closed] => some (summary, log, exec, frames, consumed, some closed, none)
+      | [summary, log, exec, frames, consumed, closed, hb] =>
+        some (summary, log, exec, frames, consumed, some closed, some hb)
       | _ => none
     match fields with
-    | some (summary, log, exec, frames, consumed, closed) =>
+    | some (summary, log, exec, frames, consumed, closed, hb) =>
       let h := parseHandlers scn
       let toks := (log.splitOn " ").filter (!·.isEmpty)
       match parseLog toks none {} with
       | none => some { model := "BADLOG", spec := some false, reason := "bad-log" }
       | some p =>
         let r := replayAll h p.iters
-        let tail := s!"|{log}|{exec}|{frames}|{consumed}" ++ (match closed with | some c => s!"|{c}" | none => "")
-        let (spec, reason) := judge (fn == "real") scn p summary exec frames consumed closed
+        let tail := s!"|{log}|{exec}|{frames}|{consumed}" ++ (match closed with | some c => s!"|{c}" | none => "") ++
+          (match hb with | some c => s!"|{c}" | none => "")
+        let (spec, reason) := judge (fn == "real") scn p summary exec frames consumed closed hb
         match r.error with
         | some e => some { model := e, spec := spec, reason := reason }
         | none =>
